@@ -113,8 +113,13 @@ def _unhex(h):
 
 
 def norm_arg(a):
+    # `./x` and `x` name the same file relative to the step's directory; the
+    # backends and the compilation database differ in this spelling only
     if a.startswith('./') and len(a) > 2:
         return a[2:]
+    for flag in ('-I', '-L', '-isystem', '-iquote'):
+        if a.startswith(flag + './') and len(a) > len(flag) + 2:
+            return flag + a[len(flag) + 2:]
     return a
 
 
